@@ -86,6 +86,14 @@ def must_have(name, data, kind):
             b = bytearray(data)
             b[p] = v
             yield ("flip1@%s" % cls(p, n), bytes(b), name)
+    # arbitrary bytes, and the well-formed content repeated and cut, of exactly the sizes at which block-zero analysis
+    # changes its demands (8096) -- one byte less, one byte more
+    import random as _r
+    r_ = _r.Random(len(data) * 31 + len(name))
+    for ln in (8095, 8096, 8097):
+        yield ("random%d" % ln, bytes(r_.randrange(256) for _ in range(ln)), name)
+        if kind == "text" and data:
+            yield ("repeat-cut@%d" % ln, (data * (ln // len(data) + 1))[:ln], name)
 
 
 def structural(name, data, kind):
